@@ -576,7 +576,8 @@ def run(pid, job, ctx):
             pool = multi_pool(r) + PHONES
             R = dtlib.rand_ref(r)
             for expr in pool:
-                for c in (EDGE_CONTEXTS if ctx.tier == 'thorough' else r.sample(EDGE_CONTEXTS, 5)):
+                # thorough: every short context each time, the three ~1 700-character contexts in 4 of the 60 rounds (they cost 50x a short one)
+                for c in ((EDGE_CONTEXTS if _ < 4 else EDGE_CONTEXTS[3:]) if ctx.tier == 'thorough' else r.sample(EDGE_CONTEXTS, 5)):
                     q = c.format(expr)
                     for mt, m in models:
                         try:
